@@ -69,7 +69,7 @@ PROPS["C07"] = dict(engine="E8", level="exploration",
    design_ref="DESIGN.md 5.7", technique="runtime monitoring: exact event-multiset oracle between synctest quiescence barriers around Refilter, exhaustive over contents x filter pairs x variants")
 
 PROPS["C08"] = dict(engine="E9", level="exploration",
-   rule="exhaustive over operation sequences: every word over {R parent becomes ready (at most once), E Refilter(equal), N Refilter(new), V parent event / parent cache change, S subscribe below} of length <=5 (quick: 2958 words; thorough <=6: 13198 words) x {SubscribeWithFilter, SubscribeForFilter, CloneWithFilter, CloneForFilter} x chain depth 1-3 x 2 filter palettes for the 'new' filters ({l=x, Or(...)} and {accept-all, l=x}), run STEPPED (a quiescence barrier and a full judgement after every step) and UNSTEPPED (no barriers, logger perturbation on, judgement at the end; quick: words of length >=4). One evaluation = one word executed on a fresh root kit; all distinct by construction; non-trivial = the readiness automaton and content checks were evaluated for every node after the word.",
+   rule="exhaustive over operation sequences: every word over {R parent becomes ready (at most once), E Refilter(equal), N Refilter(new), V parent event / parent cache change, S subscribe below} of length <=5 (quick: 2958 words; thorough <=6: 13198 words) x {SubscribeWithFilter, SubscribeForFilter, CloneWithFilter, CloneForFilter} x chain depth 1-3 x 2 filter palettes for the 'new' filters ({l=x, Or(...)} and {accept-all, l=x}), run STEPPED (a quiescence barrier and a full judgement after every step) and UNSTEPPED (no barriers, logger perturbation on, judgement at the end; quick: words of length >=4). Plus controller cases: a real controller whose first list takes 0..5s while the server keeps changing: not ready (nor any subscription) while the list is in flight, the read made when Ready() fires holds the list's accepted objects (or newer), no event before Ready(). One evaluation = one word executed on a fresh root kit (or one controller case); all distinct by construction; non-trivial = the readiness automaton and content checks were evaluated for every node after the word.",
    assumptions=["the root kit only publishes after MakeReady, as a controller does", "failed-first-list clause is decided in E15 (reported under C08/ready-after-failed-first-list) and event-before-ready also by E6/E7 consumers"],
    floors={"any": {"sequences": 30000, "ready-state-checks": 100000, "content-at-readiness-checks": 20000}},
    exhaustive_key="sequences", exhaustive_min=30000,
